@@ -117,14 +117,16 @@ func (sidEngine) Run(ctx *fw.Ctx, cs any) {
 			"opaque":          {0xab, 0xcd, 1, 2, 3},
 			"en":              pkt.DUIDEN(9, []byte{1, 2, 3}),
 			"llt-other-time":  pkt.DUIDLLT(1, mac),
+			// a copy of the message's own client identifier: it names another party, not this server
+			"same-as-client-id": pkt.DUIDLL([]byte{2, 0, 0, 0, 0, 1}),
 		}
-		names := []string{"none", "matching", "other-kind", "same-kind-other", "longer", "shorter", "opaque", "en", "llt-other-time"}
+		names := []string{"none", "matching", "other-kind", "same-kind-other", "longer", "shorter", "opaque", "en", "llt-other-time", "same-as-client-id"}
 		xid := uint32(0)
 		for typ := 0; typ < 256; typ++ {
 			for _, name := range names {
 				// all types get none/matching/one differing; supported types get every differing kind
 				supported := typ == 1 || typ == 3 || typ == 4 || typ == 5 || typ == 6 || typ == 8 || typ == 11 || typ == 9
-				if !supported && name != "none" && name != "matching" && name != "opaque" {
+				if !supported && name != "none" && name != "matching" && name != "opaque" && name != "same-as-client-id" {
 					continue
 				}
 				if typ == 12 || typ == 13 {
